@@ -160,17 +160,17 @@ def finish(rep, level="model_checking"):
     ev = {
         "property_id": rep.prop, "tier": rep.tier, "seed": rep.seed, "level": level,
         "coverage": {
-            "states": st["paths"], "transitions": st["decisions"],
+            "states": st["paths"], "transitions": st["decisions"] + st["obligations"],
             "traces_validated_against_impl": rep.validated + rep.replays,
             "samples": rep.samples or ["(no sample recorded)"],
-            "obligations": st["obligations"], "discharged": st["discharged"],
+            "obligations": st["obligations"], "discharged": st["discharged"], "branch_decisions": st["decisions"],
             "solver_queries": st["queries"], "solver_s": st["solver_s"],
             "paths_returned": st["returned"], "paths_raised": st["raised"], "paths_aborted": st["aborted"],
             "configurations": rep.configs, "functions_encoded": rep.functions, "bounds": rep.bounds,
             "inconclusive": len(rep.inconclusive), "known_findings_seen": sorted(seen_keys),
             "reachability_witness": rep.witness_ok,
             "explanation": "states = symbolic execution paths explored (each covers every input satisfying its path condition); "
-                           "transitions = solver-decided branch decisions; obligations = path-condition => property queries, "
+                           "transitions = solver-decided steps (branch decisions taken while executing the real code + proof obligations at path ends); branch_decisions is reported separately; obligations = path-condition => property queries, "
                            "all must be unsat of the negation; traces_validated = concrete runs of the real torch/numba build "
                            "compared with the model (shim validation + counterexample replays)",
         },
